@@ -215,12 +215,26 @@ def scn_chain(T, case):
     integration.scn_filter_chain(T, case, "C04")
 
 
+# ------------------------------------------------------------------------------------ what the plan steps hand on (shared contract)
+def cases_steps(tier):
+    from contracts import stepcontract
+
+    return stepcontract.cases(tier)
+
+
+def scn_steps(T, case):
+    from contracts import stepcontract
+
+    stepcontract.scenario(T, case, "C04")
+
+
 SCENARIOS = [
     Scenario("kernel", scn_kernel, cases_kernel, {"quick": 5, "thorough": 40}),
     Scenario("flavours", scn_flavours, cases_flavours, {"quick": 5, "thorough": 30}),
     Scenario("rational_grid_native", scn_grid, cases_grid, {"quick": 6, "thorough": 40}),
     Scenario("kernel_bit_precise_binary64", scn_fp, cases_fp, {"quick": 50, "thorough": 300}),
     Scenario("filter_inside_the_evaluator", scn_chain, cases_chain, {"quick": 3, "thorough": 10}),
+    Scenario("plan_steps_hand_over", scn_steps, cases_steps, {"quick": 1, "thorough": 2}),
 ]
 
 MANIFEST = {
